@@ -487,7 +487,7 @@ func TestSolveProgramsF47(t *testing.T) {
 	rec := ev.Get(ID)
 	rec.SetRule(rule)
 	g := genProgCase([]string{"f47"})
-	rec.Check(t, "solve", ev.N(8000, 120000), func(rt *rapid.T) {
+	rec.Check(t, "solve", ev.N(16000, 120000), func(rt *rapid.T) {
 		c := g.Draw(rt, "case")
 		rec.Begin("solve", c)
 		rec.Report(rt, "solve", c, run(c, rec))
@@ -498,7 +498,7 @@ func TestSolveProgramsCurves(t *testing.T) {
 	rec := ev.Get(ID)
 	rec.SetRule(rule)
 	g := genProgCase(curveFields)
-	rec.Check(t, "solve", ev.N(800, 30000), func(rt *rapid.T) {
+	rec.Check(t, "solve", ev.N(1600, 30000), func(rt *rapid.T) {
 		c := g.Draw(rt, "case")
 		rec.Begin("solve", c)
 		rec.Report(rt, "solve", c, run(c, rec))
@@ -509,7 +509,7 @@ func TestSolveWide(t *testing.T) {
 	rec := ev.Get(ID)
 	rec.SetRule(rule)
 	g := genWideCase([]string{"bn254", "bls12-377", "bw6-761", "bls12-381"})
-	rec.Check(t, "solve", ev.N(60, 3000), func(rt *rapid.T) {
+	rec.Check(t, "solve", ev.N(120, 3000), func(rt *rapid.T) {
 		c := g.Draw(rt, "case")
 		rec.Begin("solve", c)
 		rec.Report(rt, "solve", c, run(c, rec))
